@@ -147,7 +147,21 @@ func NilFlow(fn *ssa.Function) (reports []NilFlowReport, tests int) {
 			if !isUse || ref.Block() == nil {
 				continue
 			}
-			if ok, _ := DominatedByEdges(fn, ref, []Edge{t.edge}, nil, func(token.Pos) string { return "" }); ok {
+			// every path from the (latest) definition of the value to the use passes the nil edge,
+			// and the use is reachable from that edge without the value being redefined (a phi is
+			// redefined whenever its block is re-entered)
+			starts := []Pt{Entry(fn)}
+			var stop func(ssa.Instruction) bool
+			if def, ok := t.v.(ssa.Instruction); ok && def.Block() != nil {
+				starts = After(def)
+				stop = InstrSet(def)
+			}
+			r1 := Reach(fn, starts, Opts{StopAt: stop, BlockEdge: EdgeSet(t.edge)})
+			if r1.Has(ref) {
+				continue
+			}
+			r2 := Reach(fn, []Pt{EdgeStart(t.edge)}, Opts{StopAt: stop})
+			if r2.Has(ref) {
 				reports = append(reports, NilFlowReport{Fn: fn, Value: t.v, Use: ref, Callee: callee, Test: t.ifi})
 			}
 		}
